@@ -529,9 +529,11 @@ impl<'de, R: Read<'de>> Parser<R> {
                 self.eat_char();
                 let next = self.peek_or_null()?;
                 if next == 0 || is_delimiter(next) || is_sign_subsequent(next) {
-                    Token::Symbol(self.parse_symbol_suffix("-")?.into())
+                    let name = self.parse_symbol_suffix("-")?;
+                    self.symbol_token(name)
                 } else if next == b'.' {
-                    Token::Symbol(self.parse_sign_dot_symbol("-.")?.into())
+                    let name = self.parse_sign_dot_symbol("-.")?;
+                    self.symbol_token(name)
                 } else {
                     Token::Number(self.parse_num_literal(10, false)?)
                 }
@@ -540,9 +542,11 @@ impl<'de, R: Read<'de>> Parser<R> {
                 self.eat_char();
                 let next = self.peek_or_null()?;
                 if next == 0 || is_delimiter(next) || is_sign_subsequent(next) {
-                    Token::Symbol(self.parse_symbol_suffix("+")?.into())
+                    let name = self.parse_symbol_suffix("+")?;
+                    self.symbol_token(name)
                 } else if next == b'.' {
-                    Token::Symbol(self.parse_sign_dot_symbol("+.")?.into())
+                    let name = self.parse_sign_dot_symbol("+.")?;
+                    self.symbol_token(name)
                 } else {
                     Token::Number(self.parse_num_literal(10, true)?)
                 }
@@ -595,7 +599,8 @@ impl<'de, R: Read<'de>> Parser<R> {
                     self.eat_char();
                     Token::Keyword(self.parse_symbol()?.into())
                 } else {
-                    Token::Symbol(self.parse_symbol()?.into())
+                    let name = self.parse_symbol()?;
+                    self.symbol_token(name)
                 }
             }
             b'a'..=b'z' | b'A'..=b'Z' => {
@@ -646,11 +651,13 @@ impl<'de, R: Read<'de>> Parser<R> {
                 if !c.is_alphabetic() {
                     return Err(self.peek_error(ErrorCode::ExpectedSomeValue));
                 }
-                Token::Symbol(self.parse_symbol_scratch_suffix()?.into())
+                let name = self.parse_symbol_scratch_suffix()?;
+                self.symbol_token(name)
             }
             _ => {
                 if SYMBOL_EXTENDED.contains(&peek) {
-                    Token::Symbol(self.parse_symbol()?.into())
+                    let name = self.parse_symbol()?;
+                    self.symbol_token(name)
                 } else {
                     return Err(self.peek_error(ErrorCode::ExpectedSomeValue));
                 }
@@ -819,6 +826,30 @@ impl<'de, R: Read<'de>> Parser<R> {
         self.parse_symbol_scratch_suffix()
     }
 
+    // A name that does not start with an ASCII letter: a keyword if it ends with a colon and
+    // postfix keywords are enabled, a symbol otherwise.
+    fn symbol_token(&self, mut name: String) -> Token {
+        if self.options.keyword_syntax(KeywordSyntax::ColonPostfix)
+            && name.len() > 1
+            && name.ends_with(':')
+        {
+            name.pop();
+            Token::Keyword(name.into())
+        } else {
+            Token::Symbol(name.into())
+        }
+    }
+
+    // The value of a name starting with a dot inside a list.
+    fn dot_symbol_value(&mut self) -> Result<Value> {
+        let name = self.parse_symbol_suffix(".")?;
+        Ok(match self.symbol_token(name) {
+            Token::Keyword(name) => Value::Keyword(name),
+            Token::Symbol(name) => Value::Symbol(name),
+            _ => unreachable!(),
+        })
+    }
+
     fn parse_symbol_suffix(&mut self, prefix: &str) -> Result<String> {
         self.scratch.clear();
         self.scratch.extend(prefix.as_bytes());
@@ -924,7 +955,7 @@ impl<'de, R: Read<'de>> Parser<R> {
                                 pair.set_cdr(Value::from((Value::Nil, Value::Null)));
                                 pair = pair.cdr_mut().as_cons_mut().unwrap();
                             }
-                            pair.set_car(Value::symbol(self.parse_symbol_suffix(".")?));
+                            pair.set_car(self.dot_symbol_value()?);
                             have_value = true;
                         }
                     }
@@ -989,7 +1020,7 @@ impl<'de, R: Read<'de>> Parser<R> {
                                 pair = pair.cdr_mut().as_cons_mut().unwrap();
                                 meta = meta[1].cons_mut().unwrap();
                             }
-                            pair.set_car(Value::symbol(self.parse_symbol_suffix(".")?));
+                            pair.set_car(self.dot_symbol_value()?);
                             meta[0] = SpanInfo::Prim(Span::new(start, self.read.position()));
                             have_value = true;
                         }
